@@ -664,10 +664,25 @@ impl<E: Effect> Executor<E> {
 
         self.processes.insert(id, process);
 
-        // Inject heap data and populate locals with captures
+        // Inject heap data once for the captures and the argument together (they index one
+        // shared `heap_data`, see `Worker::handle_action`): injecting each value separately
+        // would allocate all of `heap_data` again every time and strand the copies it does not
+        // reference (count 0, never queued for reclamation).
         let captures_count = captures.len();
-        for value in captures {
-            let injected = self.inject_heap_data(value, &heap_data)?;
+        let mut bundle = captures;
+        bundle.push(argument);
+        let injected = self.inject_heap_data(
+            Value::tuple(crate::types::NIL, bundle),
+            &heap_data,
+        )?;
+        let mut injected_values = match injected {
+            Value::Tuple(_, fields) => (*fields).clone(),
+            _ => unreachable!("inject_heap_data preserves the value's shape"),
+        };
+        let injected_arg = injected_values
+            .pop()
+            .expect("bundle holds the argument last");
+        for injected in injected_values {
             // Injected into rooted storage (the new frame's locals).
             self.retain(&injected);
             let process = self
@@ -677,7 +692,6 @@ impl<E: Effect> Executor<E> {
         }
 
         // Push argument onto stack
-        let injected_arg = self.inject_heap_data(argument, &heap_data)?;
         self.retain(&injected_arg);
         let process = self
             .get_process_mut(id)
